@@ -18,8 +18,11 @@ Cuts common to all entries (objects are not modelled):
   where None behaves like the empty string in every translated test (both false, no element is read), `atr_req` /
   `atr_res` in the dispatch chains are `bytes | None`;
 * the nested `sense_*` / `listen_*` functions called by the dispatch chains are function parameters (oracles).
+Condition cuts are `whole=True`: the expression must be the COMPLETE test of its `if` / `while` / conditional
+expression / assert (or the whole value of its statement, the iterable of its `for`), so wrapping it (`c is True`,
+`c or x`) breaks the bridge; the few cuts that are operands of a larger test say so in their note.
 Not translated: the `setdefault` option preparation (dict mutation, lambdas), the `try/except` boundaries (exception
-flow tie), `time` arithmetic (floats), `RemoteTarget.brty` (regular expression), `LocalTarget.brty` (str concatenation).
+flow tie), `time` arithmetic (floats), the `RemoteTarget.brty` setter (regular expression).
 """
 from translate_fn import Spec, INT, BOOL, BYTES, STR, OPT, LIST
 
@@ -54,7 +57,7 @@ SPECS = [
          note="cut: the `if isinstance(target, LocalTarget)` behind the card on-startup call; result: card_options"),
     Spec(GROUP, "clf_connect_no_options", F, CF + "connect",
          [("rdwr_options", OPT(INT)), ("llcp_options", OPT(INT)), ("card_options", OPT(INT))],
-         expr="not (rdwr_options or llcp_options or card_options)",
+         whole=True, expr="not (rdwr_options or llcp_options or card_options)",
          note="cut: the condition of `return None` after the option preparation"),
     Spec(GROUP, "clf_connect_default_discover", F, CF + "connect", [],
          binds=[("target.sel_res", "sel_res", BYTES), ("target.sensf_res", "sensf_res", BYTES)],
@@ -62,44 +65,44 @@ SPECS = [
          note="the nested default `on_discover(target)` of the rdwr option (whole body): False for a peer-to-peer capable target"),
     # ---- connect(): main loop
     Spec(GROUP, "clf_connect_go_on", F, CF + "connect", [], binds=[("terminate()", "terminated", BOOL)],
-         path=[(12, "body")], stmts=[0], expr="not terminate()", note="cut: the condition of the main `while`"),
+         path=[(12, "body")], stmts=[0], whole=True, expr="not terminate()", note="cut: the condition of the main `while`"),
     Spec(GROUP, "clf_connect_has_rdwr", F, CF + "connect", [("rdwr_options", OPT(INT))],
-         path=_LOOP, stmts=[0], expr="rdwr_options", ret=BOOL, note="cut: main loop, the test `if rdwr_options:` (truth value)"),
+         path=_LOOP, stmts=[0], whole=True, expr="rdwr_options", ret=BOOL, note="cut: main loop, the test `if rdwr_options:` (truth value)"),
     Spec(GROUP, "clf_connect_has_llcp", F, CF + "connect", [("llcp_options", OPT(INT))],
-         path=_LOOP, stmts=[1], expr="llcp_options", ret=BOOL, note="cut: main loop, the test `if llcp_options:` (truth value)"),
+         path=_LOOP, stmts=[1], whole=True, expr="llcp_options", ret=BOOL, note="cut: main loop, the test `if llcp_options:` (truth value)"),
     Spec(GROUP, "clf_connect_has_card", F, CF + "connect", [("card_options", OPT(INT))],
-         path=_LOOP, stmts=[2], expr="card_options", ret=BOOL, note="cut: main loop, the test `if card_options:` (truth value)"),
+         path=_LOOP, stmts=[2], whole=True, expr="card_options", ret=BOOL, note="cut: main loop, the test `if card_options:` (truth value)"),
     Spec(GROUP, "clf_connect_rdwr_done", F, CF + "connect", [("result", OPT(INT))],
-         path=_LOOP, stmts=[0], expr="bool(result) is True", note="cut: main loop, `bool(result) is True` behind _rdwr_connect"),
+         path=_LOOP, stmts=[0], whole=True, expr="bool(result) is True", note="cut: main loop, `bool(result) is True` behind _rdwr_connect"),
     Spec(GROUP, "clf_connect_llcp_done", F, CF + "connect", [("result", OPT(INT))],
-         path=_LOOP, stmts=[1], expr="bool(result) is True", note="cut: main loop, `bool(result) is True` behind _llcp_connect"),
+         path=_LOOP, stmts=[1], whole=True, expr="bool(result) is True", note="cut: main loop, `bool(result) is True` behind _llcp_connect"),
     Spec(GROUP, "clf_connect_card_done", F, CF + "connect", [("result", OPT(INT))],
-         path=_LOOP, stmts=[2], expr="bool(result) is True", note="cut: main loop, `bool(result) is True` behind _card_connect"),
+         path=_LOOP, stmts=[2], whole=True, expr="bool(result) is True", note="cut: main loop, `bool(result) is True` behind _card_connect"),
     # ---- _rdwr_connect
-    Spec(GROUP, "clf_rdwr_found", F, CF + "_rdwr_connect", [("target", OPT(INT))], expr="target is not None",
+    Spec(GROUP, "clf_rdwr_found", F, CF + "_rdwr_connect", [("target", OPT(INT))], whole=True, expr="target is not None",
          note="cut: the test of the sense() result"),
     Spec(GROUP, "clf_rdwr_discover", F, CF + "_rdwr_connect", [],
-         binds=[("options['on-discover'](target)", "answer", OPT(INT))], expr="options['on-discover'](target)", ret=BOOL,
+         binds=[("options['on-discover'](target)", "answer", OPT(INT))], whole=True, expr="options['on-discover'](target)", ret=BOOL,
          note="cut: the on-discover decision (truth value of the callback result)"),
-    Spec(GROUP, "clf_rdwr_activated", F, CF + "_rdwr_connect", [("tag", OPT(INT))], expr="tag is not None",
+    Spec(GROUP, "clf_rdwr_activated", F, CF + "_rdwr_connect", [("tag", OPT(INT))], whole=True, expr="tag is not None",
          note="cut: the test of the nfc.tag.activate() result"),
     Spec(GROUP, "clf_rdwr_connect", F, CF + "_rdwr_connect", [],
-         binds=[("options['on-connect'](tag)", "answer", OPT(INT))], expr="options['on-connect'](tag)", ret=BOOL,
+         binds=[("options['on-connect'](tag)", "answer", OPT(INT))], whole=True, expr="options['on-connect'](tag)", ret=BOOL,
          note="cut: the on-connect decision (truth value of the callback result)"),
     Spec(GROUP, "clf_rdwr_beep", F, CF + "_rdwr_connect", [],
-         binds=[("options['beep-on-connect']", "beep", OPT(INT))], expr="options['beep-on-connect']", ret=BOOL,
+         binds=[("options['beep-on-connect']", "beep", OPT(INT))], whole=True, expr="options['beep-on-connect']", ret=BOOL,
          note="cut: the beep-on-connect decision (truth value of the option)"),
     Spec(GROUP, "clf_rdwr_present", F, CF + "_rdwr_connect", [],
          binds=[("terminate()", "terminated", BOOL), ("tag.is_present", "present", BOOL)],
-         expr="not terminate() and tag.is_present", note="cut: the condition of the presence loop"),
+         whole=True, expr="not terminate() and tag.is_present", note="cut: the condition of the presence loop"),
     # ---- _llcp_connect
-    Spec(GROUP, "clf_llcp_roles", F, CF + "_llcp_connect", [], expr="('target', 'initiator')",
+    Spec(GROUP, "clf_llcp_roles", F, CF + "_llcp_connect", [], whole=True, expr="('target', 'initiator')",
          note="cut: the roles tried, in this order"),
     Spec(GROUP, "clf_llcp_role_match", F, CF + "_llcp_connect", [("role", STR)],
          binds=[("options.get('role') is None", "no_role", BOOL), ("options.get('role')", "role_opt", STR)],
-         expr="options.get('role') is None or options.get('role') == role",
+         whole=True, expr="options.get('role') is None or options.get('role') == role",
          note="cut: is this role tried; the None test of the option is a bool parameter, its value a str (any str when None)"),
-    Spec(GROUP, "clf_llcp_dep_keys", F, CF + "_llcp_connect", [], expr="('brs', 'acm', 'rwt', 'lrt', 'lri')",
+    Spec(GROUP, "clf_llcp_dep_keys", F, CF + "_llcp_connect", [], whole=True, expr="('brs', 'acm', 'rwt', 'lrt', 'lri')",
          note="cut: the option keys passed through to `llc.activate` (NFC-DEP parameters)"),
     Spec(GROUP, "clf_llcp_dep_key_fwd", F, CF + "_llcp_connect", [], binds=[("k in options", "present", BOOL)],
          expr="k in options",
@@ -107,20 +110,20 @@ SPECS = [
               "pins the TEXT of the filter (`k in options`, not `options.get(k)`: a value 0 / False is forwarded)"),
     Spec(GROUP, "clf_llcp_activated", F, CF + "_llcp_connect", [],
          binds=[("llc.activate(mac=DEP(clf=self), **dep_cfg)", "answer", OPT(INT))],
-         expr="llc.activate(mac=DEP(clf=self), **dep_cfg)", ret=BOOL, note="cut: the decision on the llc.activate() result (truth value)"),
+         whole=True, expr="llc.activate(mac=DEP(clf=self), **dep_cfg)", ret=BOOL, note="cut: the decision on the llc.activate() result (truth value)"),
     Spec(GROUP, "clf_llcp_connect", F, CF + "_llcp_connect", [],
-         binds=[("options['on-connect'](llc)", "answer", OPT(INT))], expr="options['on-connect'](llc)", ret=BOOL,
+         binds=[("options['on-connect'](llc)", "answer", OPT(INT))], whole=True, expr="options['on-connect'](llc)", ret=BOOL,
          note="cut: the on-connect decision (truth value of the callback result)"),
     # ---- _card_connect
     Spec(GROUP, "clf_card_discover", F, CF + "_card_connect", [("target", BOOL)],
          binds=[("options['on-discover'](target)", "answer", OPT(INT))],
-         expr="target and options['on-discover'](target)", ret=BOOL,
+         whole=True, expr="target and options['on-discover'](target)", ret=BOOL,
          note="cut: target found and accepted by on-discover (truth value); `target` is the truth value of the listen() result"),
     Spec(GROUP, "clf_card_connect", F, CF + "_card_connect", [],
-         binds=[("options['on-connect'](tag)", "answer", OPT(INT))], expr="options['on-connect'](tag)", ret=BOOL,
+         binds=[("options['on-connect'](tag)", "answer", OPT(INT))], whole=True, expr="options['on-connect'](tag)", ret=BOOL,
          note="cut: the on-connect decision (truth value of the callback result)"),
     Spec(GROUP, "clf_card_go_on", F, CF + "_card_connect", [], binds=[("terminate()", "terminated", BOOL)],
-         expr="not terminate()", note="cut: the condition of the command/response loop"),
+         whole=True, expr="not terminate()", note="cut: the condition of the command/response loop"),
     # ---- sense()
     Spec(GROUP, "clf_sense_arg_check", F, CF + "sense", [("target", INT)],
          binds=[("isinstance(target, RemoteTarget)", "is_remote", BOOL)], path=[(4, "body")],
@@ -128,46 +131,52 @@ SPECS = [
               "variable is a marker"),
     Spec(GROUP, "clf_sense_nodev", F, CF + "sense", [], binds=_DEV, path=[(5, "body")], stmts=[0],
          note="cut: ENODEV without an open device"),
+    Spec(GROUP, "clf_sense_forget", F, CF + "sense", [], stores=["self.target"], path=[(5, "body")], stmts=[1],
+         result=["self.target"], note="cut: statement 1 inside the lock: the captured target is forgotten; result: self.target"),
     Spec(GROUP, "clf_tta_sel_req", F, CF + "sense.sense_tta", [], binds=[("target.sel_req", "sel_req", BYTES)],
          stmts=[0], note="cut: statement 0 of the nested sense_tta: the sel_req length check"),
     Spec(GROUP, "clf_tta_sens_len_bad", F, CF + "sense.sense_tta", [], binds=[("target.sens_res", "sens_res", BYTES)],
-         expr="len(target.sens_res) != 2", note="cut: the SENS_RES length test of the found target"),
+         expr="len(target.sens_res) != 2", note="cut: the SENS_RES length test of the found target (right operand of `target and ..`: not a whole test)"),
     Spec(GROUP, "clf_tta_is_t1t", F, CF + "sense.sense_tta", [], binds=[("target.sens_res", "sens_res", BYTES)],
-         expr="target.sens_res[0] & 0b00011111 == 0", note="cut: the Type 1 Tag platform test"),
+         expr="target.sens_res[0] & 0b00011111 == 0", note="cut: the Type 1 Tag platform test (right operand of `target and ..`: not a whole test)"),
     Spec(GROUP, "clf_tta_t1t_checks", F, CF + "sense.sense_tta", [],
          binds=[("target.sens_res", "sens_res", BYTES), ("target.rid_res", "rid_res", BYTES)],
          path=[(4, "body")], note="cut: the four checks of a Type 1 Tag answer (body of the platform test)"),
     Spec(GROUP, "clf_dep_checks", F, CF + "sense.sense_dep", [], binds=[("target.atr_req", "atr_req", BYTES)],
          stmts=(0, 2), note="cut: the two atr_req length checks of the nested sense_dep (in front of the driver call)"),
     Spec(GROUP, "clf_sense_iters", F, CF + "sense", [], binds=[("options.get('iterations', 1)", "iterations", INT)],
-         expr="range(max(1, options.get('iterations', 1)))", note="cut: the iteration range; the option lookup is the parameter"),
-    Spec(GROUP, "clf_sense_single", F, CF + "sense", [("targets", LIST(INT))], expr="len(targets) == 1",
+         whole=True, expr="range(max(1, options.get('iterations', 1)))", note="cut: the iteration range; the option lookup is the parameter"),
+    Spec(GROUP, "clf_sense_single", F, CF + "sense", [("targets", LIST(INT))], whole=True, expr="len(targets) == 1",
          note="cut: target errors are raised only for a single target; `targets` as a list of markers"),
-    Spec(GROUP, "clf_sense_mute", F, CF + "sense", [("targets", LIST(INT))], expr="len(targets) > 0",
+    Spec(GROUP, "clf_sense_mute", F, CF + "sense", [("targets", LIST(INT))], whole=True, expr="len(targets) > 0",
          note="cut: the field is switched off after an unsuccessful iteration unless no target was given"),
     Spec(GROUP, "clf_sense_sleep", F, CF + "sense", [("i", INT)], binds=[("options.get('iterations', 1)", "iterations", INT)],
-         expr="i < options.get('iterations', 1) - 1", note="cut: sleep between iterations, not after the last one"),
+         whole=True, expr="i < options.get('iterations', 1) - 1", note="cut: sleep between iterations, not after the last one"),
     Spec(GROUP, "clf_sense_dispatch", F, CF + "sense", [("target", INT)],
-         binds=[("target.atr_req", "atr_req", OPT(BYTES)), ("target.brty.endswith('A')", "is_a", BOOL),
-                ("target.brty.endswith('B')", "is_b", BOOL), ("target.brty.endswith('F')", "is_f", BOOL)],
+         binds=[("target.atr_req", "atr_req", OPT(BYTES)), ("target.brty", "brty", STR)],
          opaque=_SENSE_ORACLES, stores=["self.target"], path=[(5, "body"), (3, "body"), (1, "body"), (1, "body")],
          result=["self.target"],
-         note="cut: the `try` body of the inner loop: which nested sense function is called for a target; the three "
-              "`brty.endswith` tests are bool parameters, the nested functions oracles; result: self.target"),
+         note="cut: the `try` body of the inner loop: which nested sense function is called for a target (`atr_req`, then "
+              "the last letter of `brty`); the nested functions are oracles; result: self.target"),
     Spec(GROUP, "clf_sense_found", F, CF + "sense", [], binds=[("self.target", "target", OPT(INT))],
-         expr="self.target is not None", note="cut: the `else` of the try: return the first target found"),
+         whole=True, expr="self.target is not None", note="cut: the `else` of the try: return the first target found"),
     # ---- listen()
     Spec(GROUP, "clf_listen_nodev", F, CF + "listen", [], binds=_DEV, path=[(5, "body")], stmts=[0],
          note="cut: ENODEV without an open device"),
+    Spec(GROUP, "clf_listen_forget", F, CF + "listen", [], stores=["self.target"], path=[(5, "body")], stmts=[1],
+         result=["self.target"], note="cut: statement 1 inside the lock: the captured target is forgotten; result: self.target"),
     Spec(GROUP, "clf_listen_dispatch", F, CF + "listen", [("target", INT), ("timeout", INT)],
          binds=[("target.atr_res", "atr_res", OPT(BYTES)), ("target.brty", "brty", STR)],
          opaque=_LISTEN_ORACLES, stores=["self.target"], path=[(5, "body")], stmts=(3, 5), result=["self.target"],
          note="cut: statements 3-4 inside the lock: which nested listen function is called; ValueError for an unknown "
               "brty; the nested functions are oracles, `timeout` an int; result: self.target"),
     Spec(GROUP, "clf_listen_dep_min", F, CF + "listen.listen_dep", [], binds=[("target.atr_req", "atr_req", BYTES)],
-         expr="len(target.atr_req) >= 16", note="cut: minimum ATR_REQ length accepted by the nested listen_dep"),
+         whole=True, expr="len(target.atr_req) >= 16", note="cut: minimum ATR_REQ length accepted by the nested listen_dep"),
     Spec(GROUP, "clf_listen_dep_max", F, CF + "listen.listen_dep", [], binds=[("target.atr_req", "atr_req", BYTES)],
-         expr="len(target.atr_req) <= 64", note="cut: maximum ATR_REQ length accepted by the nested listen_dep"),
+         whole=True, expr="len(target.atr_req) <= 64", note="cut: maximum ATR_REQ length accepted by the nested listen_dep"),
+    Spec(GROUP, "clf_local_brty", F, "LocalTarget.brty", [],
+         binds=[("self._brty_send", "brty_send", STR), ("self._brty_recv", "brty_recv", STR)],
+         note="property getter: one bitrate/type string, or send/recv when they differ"),
     # ---- exchange()
     Spec(GROUP, "clf_exchange_nodev", F, CF + "exchange", [], binds=_DEV, path=[(0, "body")], stmts=[0],
          note="cut: ENODEV without an open device"),
@@ -192,7 +201,7 @@ BRIDGE = {
         "card_step_bridge", "try_step_bridge", "main_loop_bridge", "startup_bridge", "startup_rest_bridge",
         "startup_phase_bridge", "connect_bridge", "dep_cfg_bridge", "gen_dep_cfg_mem", "gen_roles_tried",
         "gen_connect_callback_order", "gen_release_iff_connect_true", "gen_sense_no_raise_unsupported",
-        "gen_sense_field_off_when_none")],
+        "gen_sense_field_off_when_none", "local_brty_bridge")],
     "properties": ["C18", "C19"],
 }
 
@@ -267,8 +276,12 @@ def inputs(rng, sp):
         out += [([], [a, b, 1, 2]) for a in (False, True) for b in (False, True)]
     if n == "clf_sense_dispatch":
         for atr in (None, b"", b"\xd4\x00"):
-            for fl in ((True, False, False), (False, True, False), (False, False, True), (False, False, False), (True, True, True)):
-                out.append(([rng.randrange(5)], [atr] + list(fl)))
+            for brty in ("106A", "106B", "212F", "424F", "106", "A", "", "106a", "848B", "106A/106B"):
+                out.append(([rng.randrange(5)], [atr, brty]))
+    if n in ("clf_sense_forget", "clf_listen_forget"):
+        out += [([], [])]
+    if n == "clf_local_brty":
+        out += [([], [a, b]) for a in ("106A", "212F", "424F") for b in ("106A", "212F", "424F")]
     if n == "clf_listen_dispatch":
         for atr in (None, b"", b"\xd5\x01"):
             for brty in ("106A", "212A", "424A", "106B", "212B", "424B", "848B", "212F", "424F", "106F", "848A", "106", ""):
@@ -307,6 +320,15 @@ MUTATIONS = [
     ("clf_sense_dispatch", "Type B and Type F swapped",
      "self.target = sense_ttb(target)\n                        elif target.brty.endswith('F'):\n                            self.target = sense_ttf(target)",
      "self.target = sense_ttf(target)\n                        elif target.brty.endswith('F'):\n                            self.target = sense_ttb(target)"),
+    ("clf_sense_dispatch", "technology letter read at the front of brty", "if target.atr_req is not None:\n                            self.target = sense_dep(target)\n                        elif target.brty.endswith('A'):",
+     "if target.atr_req is not None:\n                            self.target = sense_dep(target)\n                        elif target.brty.startswith('A'):"),
+    ("clf_local_brty", "send and recv swapped in the combined string", "else self._brty_send+\"/\"+self._brty_recv", "else self._brty_recv+\"/\"+self._brty_send"),
+    ("clf_sense_forget", "sense() keeps the target of an earlier call (stale target for exchange)",
+     "            self.target = None  # forget captured target\n            self.device.mute()  # deactivate the rf field\n\n            for i in range(",
+     "            self.device.mute()  # deactivate the rf field\n\n            for i in range("),
+    ("clf_listen_forget", "listen() forgets the target only after the field is off",
+     "            self.target = None  # forget captured target\n            self.device.mute()  # deactivate the rf field\n\n            info =",
+     "            self.device.mute()  # deactivate the rf field\n            self.target = None  # forget captured target\n\n            info ="),
     ("clf_sense_arg_check", "argument check inverted", "if not isinstance(target, RemoteTarget):", "if isinstance(target, RemoteTarget):"),
     ("clf_listen_dispatch", "424A no longer a Type A target", "('106A', '212A', '424A')", "('106A', '212A')"),
     ("clf_listen_dispatch", "atr_res test weakened", "if target.atr_res is not None:", "if target.atr_res:"),
